@@ -5,7 +5,16 @@ package main
 // symbols of every writer, with several leftovers so that the padding - and with it the position
 // of the module blocks relative to the 32-bit words of the image rows - varies.
 
-import "fmt"
+import (
+	"fmt"
+
+	"verif/mc"
+
+	"github.com/makiuchi-d/gozxing"
+	"github.com/makiuchi-d/gozxing/qrcode"
+	qrdec "github.com/makiuchi-d/gozxing/qrcode/decoder"
+	qrenc "github.com/makiuchi-d/gozxing/qrcode/encoder"
+)
 
 func runLargeScales() {
 	maxScale := chk.Pick(72, 130)
@@ -42,4 +51,74 @@ func runLargeScales() {
 		add(onedSymbol(sp, 0), []int{0, 9, defaultMargin}, []int{1, 2})
 	}
 	runJobs(fmt.Sprintf("large module sizes: QR version 1 (margin 0, 4, none), Data Matrix 10x10 and 8x18, 9 1-D writers (margin 0, 9, none; height 1, 2) x EVERY module size 9..%d x leftover pixels %v on both axes", maxScale, leftovers), jobs)
+}
+
+// qrSymbolWith: a QR symbol written with further writer hints (error-correction level, version,
+// mask, character set, GS1) NEXT TO the margin hint. The module matrix comes from Encoder_encode
+// with the same hints (the encoder does not read MARGIN); the geometry formula is unchanged.
+func qrSymbolWith(name, content string, level qrdec.ErrorCorrectionLevel, extra hintMap, writerHints hintMap) *symbol {
+	s := &symbol{Kind: "qr", Name: name, Content: content, margins: true, docDefault: 4, format: gozxing.BarcodeFormat_QR_CODE,
+		newWriter: func() gozxing.Writer { return qrcode.NewQRCodeWriter() }, extra: writerHints}
+	var code *qrenc.QRCode
+	var err error
+	pmsg, site := mc.Guard(func() { code, err = qrenc.Encoder_encode(content, level, extra) })
+	if pmsg != "" {
+		chk.Violation("C14/panic/"+site, fmt.Sprintf("panic %q in Encoder_encode for %s", pmsg, name), caseRec{name, content, 0, 0, 0})
+		return nil
+	}
+	if err != nil {
+		panic(fmt.Sprintf("harness: %s content refused: %v", name, err))
+	}
+	bm := code.GetMatrix()
+	mod := make([][]bool, bm.GetHeight())
+	for y := range mod {
+		mod[y] = make([]bool, bm.GetWidth())
+		for x := range mod[y] {
+			mod[y][x] = bm.Get(x, y) == 1
+		}
+	}
+	s.setMatrix(mod)
+	s.noDefault = !s.measureDefault()
+	return s
+}
+
+var hintedQR = map[string]func() *symbol{}
+
+func init() {
+	add := func(name string, level qrdec.ErrorCorrectionLevel, enc hintMap, wr hintMap) {
+		hintedQR[name] = func() *symbol { return qrSymbolWith(name, "C14 hinted", level, enc, wr) }
+	}
+	EC := gozxing.EncodeHintType(gozxing.EncodeHintType_ERROR_CORRECTION)
+	add("qr+ecH", qrdec.ErrorCorrectionLevel_H, nil, hintMap{EC: qrdec.ErrorCorrectionLevel_H})
+	add("qr+ecQstr", qrdec.ErrorCorrectionLevel_Q, nil, hintMap{EC: "Q"})
+	add("qr+ecLstr", qrdec.ErrorCorrectionLevel_L, nil, hintMap{EC: "L"})
+	add("qr+v3", qrdec.ErrorCorrectionLevel_L, hintMap{gozxing.EncodeHintType_QR_VERSION: 3}, hintMap{gozxing.EncodeHintType_QR_VERSION: 3})
+	add("qr+mask5", qrdec.ErrorCorrectionLevel_L, hintMap{gozxing.EncodeHintType_QR_MASK_PATTERN: 5}, hintMap{gozxing.EncodeHintType_QR_MASK_PATTERN: 5})
+	add("qr+utf8", qrdec.ErrorCorrectionLevel_L, hintMap{gozxing.EncodeHintType_CHARACTER_SET: "UTF-8"}, hintMap{gozxing.EncodeHintType_CHARACTER_SET: "UTF-8"})
+	add("qr+gs1", qrdec.ErrorCorrectionLevel_L, hintMap{gozxing.EncodeHintType_GS1_FORMAT: true}, hintMap{gozxing.EncodeHintType_GS1_FORMAT: true})
+	add("qr+all", qrdec.ErrorCorrectionLevel_M,
+		hintMap{gozxing.EncodeHintType_QR_VERSION: "2", gozxing.EncodeHintType_QR_MASK_PATTERN: "1", gozxing.EncodeHintType_CHARACTER_SET: "ISO-8859-1"},
+		hintMap{EC: "M", gozxing.EncodeHintType_QR_VERSION: "2", gozxing.EncodeHintType_QR_MASK_PATTERN: "1", gozxing.EncodeHintType_CHARACTER_SET: "ISO-8859-1"})
+}
+
+func runHintedQR() {
+	var jobs []job
+	names := []string{"qr+ecH", "qr+ecQstr", "qr+ecLstr", "qr+v3", "qr+mask5", "qr+utf8", "qr+gs1", "qr+all"}
+	for _, n := range names {
+		s := hintedQR[n]()
+		if s == nil {
+			continue
+		}
+		for _, m := range marginList([]int{0, 1, 4, 7, 20}) {
+			natW, natH := s.natural(m)
+			var reqs []pt
+			for _, r := range []pt{{0, 0}, {natW, natH}, {natW + 3, natH + 1}, {2*natW + 1, 2 * natH}, {3 * natW, 3*natH + 2}, {natW - 5, 2 * natH}} {
+				if r.w >= 0 && r.h >= 0 {
+					reqs = append(reqs, r)
+				}
+			}
+			jobs = append(jobs, job{s, m, reqs})
+		}
+	}
+	runJobs("QR with further writer hints next to MARGIN (ERROR_CORRECTION typed and as string, QR_VERSION, QR_MASK_PATTERN, CHARACTER_SET, GS1_FORMAT, all together as strings) x margins x 6 requested sizes", jobs)
 }
